@@ -243,6 +243,26 @@ pub mod kernels {
         reach!(!r.is_empty(), "reach.nonempty");
     }
 
+    /// the same for DEGENERATE triangles (colinear or coincident vertices, symbolic in [0,3]^2), which take
+    /// the colinear shortcut of the scanline code: the row is the same for all six vertex orders
+    #[cfg_attr(kani, kani::proof, kani::unwind(6))]
+    pub fn c19_q_k_tri_order_degenerate_b2() {
+        let p = || Point::new(small_u(2) as i32, small_u(2) as i32);
+        let (a, b, c) = (p(), p(), p());
+        kani::assume(cross(a, b, c) == 0);
+        let y = small_u(3) as i32 - 2;
+        note!("a", a); note!("b", b); note!("c", c); note!("y", y);
+        let r = hk::triangle_scanline_at(&Triangle::new(a, b, c), y);
+        note!("row_abc", r);
+        check!(hk::triangle_scanline_at(&Triangle::new(a, c, b), y) == r, "C19.order");
+        check!(hk::triangle_scanline_at(&Triangle::new(b, a, c), y) == r, "C19.order");
+        check!(hk::triangle_scanline_at(&Triangle::new(b, c, a), y) == r, "C19.order");
+        check!(hk::triangle_scanline_at(&Triangle::new(c, a, b), y) == r, "C19.order");
+        check!(hk::triangle_scanline_at(&Triangle::new(c, b, a), y) == r, "C19.order");
+        reach!(!r.is_empty() && a != b && b != c && a != c && a.y == b.y, "reach.horizontal");
+        reach!(!r.is_empty() && a.y != b.y && a.x != b.x, "reach.slanted");
+    }
+
     /// two triangles sharing the edge a-b (c and d on opposite sides), all vertices SYMBOLIC in [0,3]^2:
     /// every pixel of the shared Bresenham edge (rasterised from the (y, x)-sorted end points) is in both
     /// scanlines, and lattice points on the shared segment are covered by at least one triangle
